@@ -32,9 +32,15 @@ try:
     r0 = subprocess.run(['/venv/bin/python', '-W', 'ignore', f'{out}/demo.py'], env=env, capture_output=True, text=True, timeout=600)
     meta['demo_without_patch_rc'] = r0.returncode
     a = subprocess.run(['git', '-C', wt, 'apply', f'{out}/patch.diff'], capture_output=True, text=True)
+    if a.returncode:   # the repository moved on (fix: commits): retry with fuzz, the stored patch is refreshed when that works
+        a = subprocess.run(['patch', '-p1', '-F3', '-s', '-i', f'{out}/patch.diff'], cwd=wt, capture_output=True, text=True)
+        if a.returncode == 0:
+            d = subprocess.run(['git', '-C', wt, 'diff', '--', 'src'], capture_output=True, text=True).stdout
+            open(f'{out}/patch.diff', 'w').write(d)
+            print('  patch refreshed against current HEAD')
     meta['patch_applies'] = a.returncode == 0
     if a.returncode:
-        print('PATCH DOES NOT APPLY', a.stderr)
+        print('PATCH DOES NOT APPLY', a.stderr, a.stdout)
     r1 = subprocess.run(['/venv/bin/python', '-W', 'ignore', f'{out}/demo.py'], env=env, capture_output=True, text=True, timeout=600)
     meta['demo_with_patch_rc'] = r1.returncode
     meta['demo_with_patch_tail'] = (r1.stdout + r1.stderr)[-400:]
